@@ -571,6 +571,8 @@ def main(tier, seed):
         trng = random.Random(rng.randrange(1 << 30))
         nn = 2 + tno % 7
         topo = random_tree(trng, nn, reuse_macs=(tno % 3 == 2))
+        if tno % 4 == 1:
+            topo["router_apps"] = True          # the routers of this internetwork are devices as well
         sts = stations(topo)
         meta = {"part": "T", "topology": tno, "nets": nn, "stations": len(sts), "routers": len(topo["nodes"]) - len(sts),
                 "macs_reused_across_networks": tno % 3 == 2}
